@@ -71,6 +71,11 @@ def weighting_of(index, agg_name: str):
                 c = index.resolve_name(cls.module, n.func.id)
                 if hasattr(c, "mro") and (wbase is None or wbase in c.mro) and c.module is cls.module:
                     made.append(c)
+            elif isinstance(n, ast.Call) and isinstance(n.func, ast.Attribute) and isinstance(n.func.value, ast.Name):
+                # an alternative constructor: `_Wrapper.from_pref_vector(...)`
+                c = index.resolve_name(cls.module, n.func.value.id)
+                if hasattr(c, "mro") and (wbase is None or wbase in c.mro) and c.module is cls.module and n.func.attr in getattr(c, "methods", {}):
+                    made.append(c)
     return made[0] if len({id(c) for c in made}) == 1 else None
 
 
